@@ -17,13 +17,14 @@ Definition concat_src_ok (a : op) : bool :=
   | OExtend _ _ false (mkwin [] [] []) => false
   | _ => true
   end.
-Fixpoint stage1 (p : op) : bool :=
+(* m = the dialect merges extends at SQL level (allow_extend_merges); a WINDOWED extend is covered when it does not *)
+Fixpoint stage1 (m : bool) (p : op) : bool :=
   match p with
   | OTable _ _ => true
-  | OExtend s _ wd w => stage1 s && negb wd && window_is_empty w
-  | OSelectRows s _ | OSelectCols s _ | ODropCols s _ | ORename s _ | OMapCols s _ _ | OOrder s _ _ _ => stage1 s
-  | OConcat a b idc _ _ => stage1 a && stage1 b && match idc with Some _ => concat_src_ok a && concat_src_ok b | None => true end
-  | OProject s ops gb => stage1 s && negb (is_nil gb && is_nil ops)       (* the builder: "project must have ops or group_by" *)
+  | OExtend s _ wd w => stage1 m s && (if wd then negb m else window_is_empty w)
+  | OSelectRows s _ | OSelectCols s _ | ODropCols s _ | ORename s _ | OMapCols s _ _ | OOrder s _ _ _ => stage1 m s
+  | OConcat a b idc _ _ => stage1 m a && stage1 m b && match idc with Some _ => concat_src_ok a && concat_src_ok b | None => true end
+  | OProject s ops gb => stage1 m s && negb (is_nil gb && is_nil ops)       (* the builder: "project must have ops or group_by" *)
   | OJoin _ _ _ _ _ => false
   end.
 
@@ -34,12 +35,12 @@ Definition wf_env (e : env) (p : op) : Prop :=
 Lemma window_empty_is w : window_is_empty w = true -> w = no_window.
 Proof. destruct w as [[|a p] [|b o] [|c r]]; try discriminate. reflexivity. Qed.
 
-Lemma stage1_cols_nonempty p : builder_ok p = true -> stage1 p = true -> column_names p <> [].
+Lemma stage1_cols_nonempty mg p : builder_ok p = true -> stage1 mg p = true -> column_names p <> [].
 Proof.
   induction p as [n cs|s IH ops wd w|s IH ops gb|s IH x|s IH cs|s IH ds|s IH m|s IH m dels|s IH cs rev lim|a IHa b IHb on_a on_b jt|a IHa b IHb idc an bn];
     intros BO St; simpl in St; try discriminate.
   - simpl in BO. apply andb_true_iff in BO. destruct BO as [B _]. simpl. destruct cs; [discriminate|discriminate].
-  - apply andb_true_iff in St. destruct St as [St _]. apply andb_true_iff in St. destruct St as [St _].
+  - apply andb_true_iff in St. destruct St as [St _].
     destruct (bok_extend_full _ _ _ _ BO) as [BOs _]. specialize (IH BOs St). simpl. intros X.
     destruct (column_names s) as [|c0 t] eqn:E; [congruence|]. assert (In c0 (ext_cols (c0 :: t) (map fst ops))) as I by (apply in_ext_cols; left; left; reflexivity).
     rewrite X in I. destruct I.
